@@ -78,7 +78,7 @@ def main():
         for res in ex.map(lambda s: one(s, extra, a.tier, a.seed), ids):
             results.append(res)
             print(f"{res['id']:8s} valid={res.get('valid')} tests={res.get('repo_tests_pass')} demo={res.get('demo_on_unchanged')}/{res.get('demo_on_changed')} "
-                  f"caught_by={res.get('caught_by')} {res.get('error', '')}", flush=True)
+                  f"caught_by={res.get('caught_by')} exits={[(c, v['exit']) for c, v in res.get('checks', {}).items()]} {res.get('error', '')}", flush=True)
     if a.no_write or a.seed != '0':
         return
     path = os.path.join(ROOT, 'selftest', 'RESULTS.json')
